@@ -8,7 +8,7 @@ for d in seeded/C??-?; do
   echo "$id" | grep -Eq "$PAT" || continue
   [ -f checks/$(echo $prop | tr C c).py ] || { echo "$id: no check"; continue; }
   (cd /repo && git diff --quiet) || { echo "/repo not clean"; exit 9; }
-  git -C /repo apply $d/patch.diff || { echo "$id: patch does not apply"; continue; }
+  git -C /repo apply /verif/$d/patch.diff || { echo "$id: patch does not apply"; continue; }
   out=$(./check $prop 2>&1); rc=$?
   git -C /repo checkout -- .
   nv=$(echo "$out" | grep -c "^VIOLATION")
